@@ -592,7 +592,9 @@ func c02Terminal(x *mc.Cell, role Role, term datatransfer.Status, pathIdx int, p
 			}
 			after, err := s.Vec(chid)
 			if err != nil {
-				panic(err)
+				x.Violate("C02", fmt.Sprintf("L1;terminal=%s;op=%s;reopen=%d;terminated-channel-vanished", datatransfer.Statuses[term], names, reopenMode),
+					fmt.Sprintf("[%s] after %v then %s the terminated channel can no longer be queried: %v", RoleNames[role], path, names, err), rp{name, u1, u2, reopenMode})
+				return
 			}
 			evs := s.EventsFrom(nEv)
 			rawAfter := rawValue(s.DS.Image())
